@@ -43,6 +43,18 @@ def run(facts, rep, tier):
     reg.inline_calls_with_arg("filter")
     proc, du, cfg = reg.proc, reg.du, reg.cfg
 
+    r161 = "shape"
+    try:
+        _shape_filter(facts, rep, reg, proc, du, cfg)
+    except Broken as ex:
+        if not _semantic_filter(facts, rep, reg, readers):
+            raise ex
+        r161 = "evaluated"
+    rep.extra["R16.1_decided_by"] = r161
+    _rest(facts, rep, reg, proc, du, cfg)
+
+
+def _shape_filter(facts, rep, reg, proc, du, cfg):
     # --- locate the filter decision
     s1 = None
     for bi in sorted(reg.blocks):
@@ -254,6 +266,9 @@ def run(facts, rep, tier):
     # the Some edge of s1 must lead to the predicate (s2 reachable only via the Some edge)
     rep.instances("R16.1", n, floor=3, what="table/counter effect sites under the filter")
 
+
+
+def _rest(facts, rep, reg, proc, du, cfg):
     # --- R16.2 counter step
     counters = [(bi, t) for bi, t, e in reg.effect_sites() if any(x[0] == "btree" for x in e)]
     if len(counters) != 1:
@@ -334,6 +349,226 @@ def run(facts, rep, tier):
             rep.add(Finding("R16.3", "%s : counter line does not print key and count" % pb.name, "the counter line omits DF or count", pb.loc()))
     rep.instances("R16.3", 5, floor=5)
     rep.assumptions += ["'accepted frame' is what passes the three gates (C02/C04); the gates' own correctness is C02/C04's"]
+
+
+
+# --------------------------------------------------------------------------------------------------------------------
+# R16.1 by evaluation: when the -f decision is not written in one of the recognised shapes (a mask built once per stream,
+# a helper that returns a lookup table, ...), the decision is still a function of (the -f list, the frame's DF): its
+# expression tree is evaluated - crate functions through E2 on constant arguments, the arithmetic directly - for every DF
+# 0..31 against a family of lists (absent, empty, singletons, ordered pairs with and without repeats, a b a triples).
+
+_LIST_DFS = (0, 4, 5, 11, 16, 17, 18, 20, 21, 31)
+
+
+def _filter_lists():
+    out = [None, []]
+    out += [[a] for a in _LIST_DFS]
+    out += [[a, b] for a in _LIST_DFS for b in _LIST_DFS]
+    out += [[a, b, a] for a in (4, 17, 20) for b in (5, 18, 21)]
+    out += [[a, a, a] for a in (4, 17)]
+    out += [[21, 4], [4, 40], [33]]
+    return out
+
+
+class _Unknown(Exception):
+    pass
+
+
+def _eval_decision(facts, proc, e, flt, df, cache):
+    from ..absint import k3 as K3
+    from ..absint.ctx import ref_to
+    from ..absint.domain import BoolV, EnumV, IntV, StructV, TupleV, VecV
+    from ..absint.k2 import args_value
+
+    def args_struct():
+        a = args_value(facts, {})
+        f = dict(a.fields)
+        f["filter"] = EnumV.none() if flt is None else EnumV.some(VecV([IntV.const("u32", x) for x in flt], elem_ty="u32"))
+        return StructV(a.adt, f)
+
+    def to_py(v):
+        if isinstance(v, IntV) and v.is_const():
+            return v.lo
+        if isinstance(v, BoolV) and v.val is not None:
+            return v.val
+        return v
+
+    def ev(x):
+        if df_of_line(x):
+            return df
+        k = x[0]
+        if k == "const":
+            return x[1]
+        if k == "arg":
+            path = tuple(x[2])
+            ty = proc.locals[x[1]]["ty"]["s"] if isinstance(x[1], int) and x[1] < len(proc.locals) else ""
+            if ty.rstrip(">").endswith("::Args") or ty.endswith("Args"):
+                if not path:
+                    return args_struct()
+                if path[-1:] == ("filter",):
+                    return args_struct().fields["filter"]
+            raise _Unknown("parameter %s" % show(x)[:60])
+        if k == "bin":
+            l, r = ev(x[2]), ev(x[3])
+            if isinstance(l, bool) and isinstance(r, bool):
+                return {"Eq": l == r, "Ne": l != r, "BitAnd": l and r, "BitOr": l or r, "BitXor": l != r}[x[1]]
+            if not (isinstance(l, int) and isinstance(r, int)):
+                raise _Unknown("operands of %s" % x[1])
+            op = x[1].replace("WithOverflow", "")
+            if op in ("Shl", "Shr") and not (0 <= r < 128):
+                raise _Unknown("shift amount")
+            return {"Add": lambda: l + r, "Sub": lambda: l - r, "Mul": lambda: l * r, "BitAnd": lambda: l & r, "BitOr": lambda: l | r,
+                    "BitXor": lambda: l ^ r, "Shl": lambda: l << r, "Shr": lambda: l >> r, "Eq": lambda: l == r, "Ne": lambda: l != r,
+                    "Lt": lambda: l < r, "Le": lambda: l <= r, "Gt": lambda: l > r, "Ge": lambda: l >= r,
+                    "Div": lambda: l // r if r else (_ for _ in ()).throw(_Unknown("division by zero")),
+                    "Rem": lambda: l % r if r else (_ for _ in ()).throw(_Unknown("division by zero"))}[op]()
+        if k == "un":
+            v = ev(x[2])
+            if x[1] == "Not":
+                if isinstance(v, bool):
+                    return not v
+                raise _Unknown("bitwise not")
+            if x[1] == "Neg" and isinstance(v, int):
+                return -v
+            raise _Unknown("unary %s" % x[1])
+        if k == "cast":
+            v = ev(x[2])
+            if isinstance(v, bool):
+                return int(v)
+            if isinstance(v, int):
+                from ..absint.domain import INT_TYPES
+                if x[3] in INT_TYPES and not INT_TYPES[x[3]][1]:
+                    return v & ((1 << INT_TYPES[x[3]][0]) - 1)
+                return v
+            raise _Unknown("cast")
+        if k == "discr":
+            v = ev(x[1])
+            if isinstance(v, EnumV) and len(v.variants) == 1:
+                return {"None": 0, "Some": 1, "Ok": 0, "Err": 1}.get(list(v.variants)[0])
+            raise _Unknown("discriminant")
+        if k == "path":
+            v = ev(x[1])
+            for st in x[2]:
+                if isinstance(v, TupleV) and isinstance(st, int):
+                    v = v.items[st]
+                elif isinstance(v, StructV):
+                    v = v.fields.get(st)
+                else:
+                    raise _Unknown("projection %s" % (st,))
+            return to_py(v)
+        if k == "call":
+            name = x[1]
+            if name in facts.bodies:
+                cb = facts.bodies[name]
+                vals = [ev(a) for a in x[2]]
+                key = (name, repr([repr(v) for v in vals]), repr(flt))
+                if key not in cache:
+                    def build(I, st, vals=vals, cb=cb):
+                        out = []
+                        for i, v in enumerate(vals):
+                            ty = cb.locals[i + 1]["ty"]["s"]
+                            if isinstance(v, bool):
+                                v = BoolV(v)
+                            elif isinstance(v, int):
+                                v = IntV.const(ty.lstrip("&"), v)
+                            out.append(ref_to(I, st, v) if ty.startswith("&") else v)
+                        return out
+                    I, rv, st = K3.run_fn(facts, name, build, "R16.1 decision %s" % name.split("::")[-1])
+                    cache[key] = to_py(rv) if rv is not None else None
+                r = cache[key]
+                if r is None or not isinstance(r, (int, bool, EnumV, TupleV, StructV)):
+                    raise _Unknown("%s did not evaluate to a constant (%r)" % (name, r))
+                return r
+            short = name.split("::")[-1]
+            if short in ("deref", "as_ref", "clone", "borrow", "into", "from") and len(x[2]) == 1:
+                return ev(x[2][0])
+            raise _Unknown("call %s" % name)
+        raise _Unknown("node %s" % k)
+
+    v = ev(e)
+    if isinstance(v, bool):
+        return v
+    if isinstance(v, int):
+        return v
+    raise _Unknown("decision value %r" % (v,))
+
+
+def _semantic_filter(facts, rep, reg, readers):
+    """-> True when R16.1 was decided by evaluation (findings added if it fails), False if no such decision exists"""
+    from ..lineexpr import walk
+    proc, du = reg.proc, reg.du
+    sites = [(bi, t) for bi, t, e in reg.effect_sites() if _state_effect(e)]
+    if len(sites) < 3:
+        return False
+    cands = []
+    for bi in sorted(reg.blocks):
+        t = proc.blocks[bi]["term"]
+        if t["k"] != "switch":
+            continue
+        e = expr(du, t["discr"])
+        nodes = list(walk(e))
+        uses_filter = any((x[0] == "arg" and tuple(x[2])[-1:] == ("filter",)) or (x[0] == "call" and x[1] in readers) for x in nodes)
+        uses_df = any(df_of_line(x) for x in nodes)
+        if uses_filter and uses_df:
+            cands.append((bi, t, e))
+    if len(cands) != 1:
+        return False
+    sbb, swt, e = cands[0]
+    edges = [(int(v), b) for v, b in swt["targets"]] + [("else", swt["otherwise"])]
+    skip_vals = []
+    for v, b in edges:
+        r = reg.reach(start=b)
+        if not [bi for bi, _ in sites if bi in r]:
+            skip_vals.append(v)
+    if len(skip_vals) != 1:
+        rep.oblige(False, ("skip-edge",))
+        rep.add(Finding("R16.1", "%s : no skip edge" % proc.name,
+                        "neither outcome of the -f decision skips the frame's effects (or both do): %s" % skip_vals, reg.loc(sbb)))
+        rep.instances("R16.1", 1, floor=1)
+        return True
+    explicit = [v for v, _ in edges if v != "else"]
+
+    def skipped(val):
+        val = int(val)
+        taken = val if val in explicit else "else"
+        return taken == skip_vals[0]
+
+    cache = {}
+    n = 0
+    bad = []
+    for flt in _filter_lists():
+        for df in range(32):
+            n += 1
+            try:
+                val = _eval_decision(facts, proc, e, flt, df, cache)
+            except _Unknown as ex:
+                raise Broken("C16: the -f decision %s cannot be evaluated (%s)" % (show(e)[:100], ex))
+            want_skip = flt is not None and df not in flt
+            if skipped(val) != want_skip:
+                bad.append((flt, df, skipped(val)))
+    rep.oblige(not bad, ("filter-semantics",))
+    rep.sample({"rule": "R16.1", "decision": show(e)[:200], "evaluated": n, "lists": len(_filter_lists())})
+    if bad:
+        flt, df, sk = bad[0]
+        rep.add(Finding("R16.1", "%s : the -f decision is not `df in list`" % proc.name,
+                        "with %s a DF%d frame is %s (%d of %d evaluated (list, DF) pairs disagree with membership, e.g. %s)"
+                        % (" ".join("-f %d" % x for x in flt) if flt else ("(no -f)" if flt is None else "(empty list)"), df,
+                           "dropped although listed" if sk else "applied and counted although its format is not listed", len(bad), n,
+                           [(b[0], b[1]) for b in bad[:3]]), reg.loc(sbb)))
+    # every effect site is under that decision
+    k = 0
+    for bi, t in sites:
+        k += 1
+        r = reg.reach(avoid={sbb})
+        ok = bi not in r
+        rep.oblige(ok, ("filter-dominates", callee_name(t)))
+        if not ok:
+            rep.add(Finding("R16.1", "%s : %s not under the -f decision" % (proc.name, callee_name(t)),
+                            "%s can run without the -f list being consulted: a filtered-out frame changes table/counters" % callee_name(t),
+                            reg.loc(bi)))
+    rep.instances("R16.1", k, floor=3, what="table/counter effect sites under the filter (decision evaluated on %d (list, DF) pairs)" % n)
+    return True
 
 
 def _closure_of(proc, du, call_expr):
